@@ -807,6 +807,12 @@ impl C12 {
         };
         out.sim_time = ticks_of(&v) as u64 + ticks_of(&r) as u64;
         let (sv, sr) = (v.host.shown(), r.host.shown());
+        if v.sim.psr().privileged() {
+            // (only reachable with the privilege checks off) the program ended in supervisor mode:
+            // not a user-mode program any more
+            out.bump("harness.not-user-mode");
+            return None;
+        }
         let mut fp = Fp::new();
         fp.add_str(&format!("{ev:?}"));
         fp.add(v.sim.instructions_run.min(200));
@@ -916,9 +922,19 @@ impl Check for C12 {
         s.entropy
     }
     fn generate(&self, r: &mut Rng, _t: Tier, _i: u64) -> MScn {
-        let end = *r.pick(&[EndKind::Halt, EndKind::Halt, EndKind::Reserved, EndKind::NonCanonical, EndKind::NonCanonical, EndKind::Rti, EndKind::AcvLoad, EndKind::AcvStore, EndKind::JumpOut, EndKind::BadTrap]);
+        // the trap mode must not interact with the other flags either. With the privilege checks off a
+        // "user program" can write supervisor memory or return into supervisor mode, after which it is
+        // no longer the user-mode program the property speaks about: only endings that stay in user
+        // space are generated then.
+        let ignore_privilege = r.chance(1, 4);
+        let end = if ignore_privilege {
+            *r.pick(&[EndKind::Halt, EndKind::Halt, EndKind::Reserved, EndKind::NonCanonical])
+        } else {
+            *r.pick(&[EndKind::Halt, EndKind::Halt, EndKind::Reserved, EndKind::NonCanonical, EndKind::NonCanonical, EndKind::Rti, EndKind::AcvLoad, EndKind::AcvStore, EndKind::JumpOut, EndKind::BadTrap])
+        };
         let mut s = gen_structured(r, "C12", false, end);
-        s.flags.ignore_privilege = false;
+        s.flags.ignore_privilege = ignore_privilege;
+        s.flags.debug_frames = r.chance(1, 3);
         s.ops.clear();
         s.max_ticks = 8000;
         // no lock holds here: after the virtual run has stopped the real run makes more device calls, so
